@@ -443,6 +443,38 @@ v = [a if b else c for d in e if f if g]
 u = (a := 1, b := 2)
 t = [a := 1, (b := 2)]
 ''',
+    # 16: line continuations before ';', parenthesized annotated targets, or-patterns under an enclosing pattern's column, parentheses glued to keywords
+    '''if x:
+    a \\
+  ;
+    b
+while y:
+    c; \\
+    d
+(ann): int = 1
+(obj.attr): str
+class K:
+    (field): list = []
+match v:
+    case [
+         a | b | c,
+         d]:
+        pass
+    case C(
+         x | y):
+        pass
+    case {'k':
+         1 | 2}:
+        pass
+r = a if(b)else c
+s = not(a)
+for i in(j):
+    pass
+t = [i for i in(j)if(k)]
+def fg():
+    global g1, g2, g3
+    return(g1)
+''',
 ]
 
 # expression snippets usable as replacement code for any expression slot (C01/C09/C12)
